@@ -203,7 +203,7 @@ def generate_pdf(document, target, zoom, **options):
         page.paint(stream, scale)
 
         # Bleed
-        bleed = {key: value * 0.75 for key, value in page.bleed.items()}
+        bleed = {key: value * scale for key, value in page.bleed.items()}
 
         trim_left = left + bleed['left']
         trim_top = top + bleed['top']
